@@ -267,35 +267,25 @@ func (db *DB) basicExport(ctx context.Context, config *client.BackupConfig) (err
 									return err
 								}
 							} else {
-								oldForeignDoc, err := foreignDoc.ToMap()
-								if err != nil {
-									return err
-								}
-
-								delete(oldForeignDoc, request.DocIDFieldName)
-								if foreignDoc.ID().String() == foreignDocID.String() {
-									delete(oldForeignDoc, field.Name+request.RelatedObjectID)
-								}
-
 								if foreignDoc.ID().String() == doc.ID().String() {
 									isSelfReference = true
 									refFieldName = field.Name + request.RelatedObjectID
-								}
-
-								newForeignDoc, err := client.NewDocFromMap(oldForeignDoc, foreignCol.Definition())
-								if err != nil {
-									return err
-								}
-
-								if foreignDoc.ID().String() != doc.ID().String() {
-									err = doc.Set(field.Name+request.RelatedObjectID, newForeignDoc.ID().String())
+								} else {
+									newKey, err := db.exportedDocID(
+										ctx,
+										definitionCache,
+										keyChangeCache,
+										map[string]struct{}{doc.ID().String(): {}},
+										foreignCol,
+										foreignDoc,
+									)
 									if err != nil {
 										return err
 									}
-								}
-
-								if newForeignDoc.ID().String() != foreignDoc.ID().String() {
-									keyChangeCache[foreignDoc.ID().String()] = newForeignDoc.ID().String()
+									err = doc.Set(field.Name+request.RelatedObjectID, newKey)
+									if err != nil {
+										return err
+									}
 								}
 							}
 						}
@@ -373,6 +363,85 @@ func (db *DB) basicExport(ctx context.Context, config *client.BackupConfig) (err
 	}
 
 	return nil
+}
+
+// exportedDocID returns the docID the given document will have once the export has been imported.
+//
+// That is the docID of the document in its exported form: every foreign key is replaced by the
+// exported docID of the document it references (resolved recursively, remembered in keyChangeCache)
+// and a reference of the document to itself is left out, as import creates the document without it.
+//
+// inProgress holds the documents whose docID is being resolved. A foreign key that leads back to
+// one of them cannot be resolved, the two docIDs depend on each other, and is left as it is.
+func (db *DB) exportedDocID(
+	ctx context.Context,
+	definitionCache client.DefinitionCache,
+	keyChangeCache map[string]string,
+	inProgress map[string]struct{},
+	col *collection,
+	doc *client.Document,
+) (string, error) {
+	docID := doc.ID().String()
+	if newDocID, ok := keyChangeCache[docID]; ok {
+		return newDocID, nil
+	}
+	inProgress[docID] = struct{}{}
+	defer delete(inProgress, docID)
+
+	docM, err := doc.ToMap()
+	if err != nil {
+		return "", err
+	}
+	delete(docM, request.DocIDFieldName)
+
+	for _, field := range col.Schema().Fields {
+		if !field.Kind.IsObject() || field.Kind.IsArray() {
+			continue
+		}
+		foreignKeyName := field.Name + request.RelatedObjectID
+		foreignKey, ok := docM[foreignKeyName].(string)
+		if !ok {
+			continue
+		}
+		if foreignKey == docID {
+			delete(docM, foreignKeyName)
+			continue
+		}
+		if _, ok := inProgress[foreignKey]; ok {
+			continue
+		}
+		foreignDef, ok := client.GetDefinition(definitionCache, col.Definition(), field.Kind)
+		if !ok {
+			// The backup was not configured to handle this collection, the key is exported as it is.
+			continue
+		}
+		foreignCol, err := db.newCollection(foreignDef.Version, foreignDef.Schema)
+		if err != nil {
+			return "", err
+		}
+		foreignDocID, err := client.NewDocIDFromString(foreignKey)
+		if err != nil {
+			return "", err
+		}
+		foreignDoc, err := foreignCol.Get(ctx, foreignDocID, false)
+		if err != nil {
+			// export writes null for a key of a document that does not exist.
+			docM[foreignKeyName] = nil
+			continue
+		}
+		docM[foreignKeyName], err = db.exportedDocID(
+			ctx, definitionCache, keyChangeCache, inProgress, foreignCol, foreignDoc)
+		if err != nil {
+			return "", err
+		}
+	}
+
+	newDoc, err := client.NewDocFromMap(docM, col.Definition())
+	if err != nil {
+		return "", err
+	}
+	keyChangeCache[docID] = newDoc.ID().String()
+	return newDoc.ID().String(), nil
 }
 
 func writeString(f *os.File, normal, pretty string, isPretty bool) error {
